@@ -282,6 +282,10 @@ func (fr *Frame) callContract(x ssa.Instruction, callee *ssa.Function, c *Contra
 	rs := callee.Signature.Results()
 	for i := 0; i < rs.Len(); i++ {
 		rv := freshVal(rs.At(i).Type(), "r!"+callee.Name())
+		if k := normStrings(rv); k > 0 {
+			// room for the (virtual) objects the normalised strings live in
+			fr.u.facts = append(fr.u.facts, Ge(fr.st.Next, Add(oldNext, IntLit(int64(k)))))
+		}
 		fr.u.facts = append(fr.u.facts, validFacts(rv, fr.st.Next, nil)...)
 		registerBelow(rv, fr.st.Next)
 		res = append(res, rv)
